@@ -853,7 +853,8 @@ class FormulaTr:
     + - * /  unary minus       -> the operations of `Num` (`/` is the field division: numpy semantics)
     e ** 2, e ** -1            -> `e * e`, `Num.one / e` (what numpy computes for these exponents)
     e ** x (anything else)     -> `Transc.pow e x`
-    np.exp/log/sqrt/tanh, np.pi
+    np.exp/log/sqrt/tanh
+    np.pi                      -> the parameter `np_pi` (the hand models carry pi as a constant of the run)
     anything else              -> TranslatorError
     """
 
@@ -930,16 +931,14 @@ class FormulaTr:
             if not isinstance(n.ctx, ast.Load):
                 self.bad(n, "name not in load context")
             if n.id in self.imp.pi_names:
-                self.needs_pi = True
-                return "HasPi.pi"
+                return self.param("np.pi", "np_pi")
             if n.id in self.imp.np_alias:
                 self.bad(n, "the numpy module used as a value")
             return self.param(n.id, n.id)
         if isinstance(n, (ast.Subscript, ast.Attribute)):
             if isinstance(n, ast.Attribute) and self.is_np(n.value):
                 if n.attr == "pi":
-                    self.needs_pi = True
-                    return "HasPi.pi"
+                    return self.param("np.pi", "np_pi")
                 self.bad(n, "numpy attribute not understood (only np.pi)")
             for sub in ast.walk(n):
                 if isinstance(sub, (ast.Call, ast.Lambda, ast.IfExp, ast.NamedExpr, ast.Await, ast.Yield,
